@@ -28,6 +28,11 @@ func NewChannelMgr(cfg *Config, defaultTimeShiftBufferDepthS, defaultReceiveNrRa
 
 func (cm *ChannelMgr) AddChannel(ctx context.Context, chName, chDir string) {
 	cm.mu.Lock()
+	if _, ok := cm.channels[chName]; ok {
+		// Another upload created the channel between the caller's GetChannel and this call. Keep it and its tracks.
+		cm.mu.Unlock()
+		return
+	}
 
 	chCfg := ChannelConfig{
 		Name:                 chName,
